@@ -40,6 +40,7 @@ CONSTANTS Plans,        \* set of fault plans (see PoolRunMC)
           FixPanic,     \* FALSE: a recovered shot panic is returned as nil (negative control)
           ErrKinds,     \* which VALUE a failing component returns (plan field ek), see Cls below
           FixEngCancel, \* FALSE: the pools run on the CALLER's ctx, Engine.Run's deferred cancel() does not reach them (negative control)
+          FixEngSelect, \* FALSE: Engine.Run's loop has no `case <-ctx.Done()`: a cancel is noticed only when a pool result arrives (negative control)
           FixIsCtx      \* FALSE: IsCtxError accepts any context-kind cause once ctx is done (negative control)
 
 VARIABLES
@@ -139,6 +140,18 @@ IsCtx(done, e) == \/ e = "nil"
                   \/ ~FixIsCtx /\ done /\ e = "deadline"      \* negative control only
 NotCtxValue(c) == c \notin {"nil", "ctx"}
 
+(* ---- component calls that do not return -------------------------------- *)
+\* Plan field block: ONE component call of the pool that is context-unaware and slow: it returns only after
+\* Engine.Run has returned (the driver's mock blocks on a channel that is released after Run returned).  Positions:
+\*   "newgun-warmup", "warmup"   gun factory call 0 / WarmUp inside warmUpGun         (synchronous part of pool.Run)
+\*   "sched-shared"              the shared schedule factory inside runAsync           (synchronous part of pool.Run)
+\*   "newgun-first", "bind-first" creation of the first instance (start goroutine)
+\*   "shoot"                     the first shot of instance 0
+\* A run with such a pool can only end through the caller's cancel, and "a cancelled Run returns promptly" then
+\* means: without waiting for that call (CancelPrompt, CancelPromptLive).
+Released == engRet.k # "none"
+Unblocked(p, positions) == PP(p).block \in positions => Released
+
 (* ---- initial state ----------------------------------------------------- *)
 InitFor(pl) ==
   /\ plan = pl
@@ -198,6 +211,7 @@ EngRecv ==
 
 \* case <-ctx.Done(): return ctx.Err()
 EngCancel ==
+  /\ FixEngSelect
   /\ engRet.k = "none" /\ userCancel
   /\ engRet' = ERet("ctx", 0, "") /\ cancelAtRet' = TRUE
   /\ UNCHANGED <<plan, cancelReq, userCancel, engDefer, engI, engCh, waitRet, poolVars, ctxVars, provVars, aggVars, stVars, facVars, instVars, awVars, failed>>
@@ -241,7 +255,7 @@ PoolFailSync(p, c, callWaitDone) ==
 
 \* warmUpGun: NewGun() (factory call 0), WarmUp() for a warmup.WarmedUp gun
 PoolWarm(p) ==
-  /\ poolPc[p] = "init"
+  /\ poolPc[p] = "init" /\ Unblocked(p, {"newgun-warmup", "warmup"})
   /\ gunCalls' = [gunCalls EXCEPT ![p] = 1]
   /\ IF PP(p).gunFail = 0 THEN PoolFailSync(p, Cls(p, "newgun"), TRUE)
      ELSE IF PP(p).warm = "fail" THEN PoolFailSync(p, Cls(p, "warmup"), TRUE)
@@ -251,7 +265,7 @@ PoolWarm(p) ==
 
 \* runAsync + awaitRunAsync: shared schedule creation, start of the component goroutines
 PoolAsync(p) ==
-  /\ poolPc[p] = "async"
+  /\ poolPc[p] = "async" /\ Unblocked(p, {"sched-shared"})
   /\ IF PP(p).shared /\ PP(p).schedFail = 0
      THEN /\ PoolFailSync(p, Cls(p, "sched"), FixWaitDone)
           /\ schedCalls' = [schedCalls EXCEPT ![p] = 1]
@@ -374,7 +388,7 @@ StartFirstGo(p) ==
 
 \* first instance is created synchronously; a failure is the start result
 StartFirstCreate(p, o) ==
-  /\ st[p].pc = "create"
+  /\ st[p].pc = "create" /\ Unblocked(p, {"newgun-first", "bind-first"})
   /\ o = CreateOutcome(p, 0)
   /\ CreateCounters(p, 0)
   /\ IF o = "ok"
@@ -509,7 +523,7 @@ InstWait(p, i) ==
 Panics(p, i) == PP(p).panicInst = i /\ PP(p).panicShot = ishots[p][i] + 1
 
 InstShoot(p, i) ==
-  /\ ipc[p][i] = "shoot"
+  /\ ipc[p][i] = "shoot" /\ (i = 0 /\ ishots[p][0] = 0 => Unblocked(p, {"shoot"}))
   /\ ishots' = [ishots EXCEPT ![p][i] = IF PP(p).long THEN @ ELSE @ + 1]
   /\ IF Panics(p, i)
      THEN /\ Decide(p, i, IF FixPanic THEN "panic" ELSE "nil")
